@@ -2,6 +2,7 @@ SPECIFICATION Spec
 CONSTANTS
   Machine = "event"
   CrashPoints = FALSE
+  RollFaults = FALSE
   MaxCount = 3
   Limit = 4
   MaxWrite = 6
@@ -16,6 +17,6 @@ CONSTANTS
   PreDumps = 5
   MaxIds = 12
 CONSTRAINT Bounded
-INVARIANTS TypeOK EvCountBound
-PROPERTIES EvDropAtCap EvOneFilePerTick
+INVARIANTS TypeOK EvCountBound EvStoppedQueueEmpty
+PROPERTIES EvDropAtCap EvOneFilePerTick EvStoppedIsQuiet
 CHECK_DEADLOCK FALSE
